@@ -5,7 +5,18 @@ around multiples of the chunk size, sequentially, on the controllable pool (deli
 chosen by the harness) and on the real multiprocessing pool; the stored records are mapped
 back to input row numbers by bit pattern and the per-patch row sets are compared inside Coq
 with Model/Writer.v (c02_case) for the same (n, cs, workers, assignment, delivery order).
+
+Option combinations: every patch mode (patch_centers as coordinates or as another catalog, patch_name,
+BOTH patch_centers and patch_name - documented: the index column is then ignored and the nearest centre
+decides -, patch_num, and a patch_num given next to an option that outranks it) is combined with every
+way of running the call: sequentially, on the controllable pool, on the real pool; worker count given as
+max_workers, taken from YAW_NUM_THREADS, or capped by it; progress display on or off; into a fresh
+directory or over an older catalog (overwrite=True).  The "matrix" scenario runs ONE input under several
+of these executions and compares the per-patch row sets with each other and with the key the documented
+precedence selects (Model/Writer.v: mode_key, c02_matrix_case; Props/C02.v: C02_executions_agree,
+C02_centres_take_precedence, C02_index_column_names_patch).
 """
+import sys
 import itertools
 import os
 from fractions import Fraction
@@ -24,10 +35,19 @@ TRUSTED = [
 ASSUMPTIONS = [
     "records are compared by the bit pattern of their float64 fields",
     "the model's `assign` vector is the implementation's own assignment (checked against exact nearest-centre separately)",
+    "matrix cases: the key vector is NOT the implementation's: it is the exact nearest centre (rational chord distances to the "
+    "centres handed to the call, or to get_centers() of the catalog handed to it) when centres are given, else the index column; "
+    "a near tie between two centres (not produced by the generator; counted if it happens) takes the first execution's side",
+    "patch_num alone (generated centres): only 'every record once, unchanged, same after reopening' is checked; which centres "
+    "are generated is not part of the property, and such cases are not compared across executions",
+    "progress=True: stderr is redirected at file-descriptor level while the call runs; overwrite history: an older complete "
+    "catalog with other records, columns and more patches is created in the same directory first",
 ]
-RULE = ("cases = (source format, n around multiples of chunk size cs, cs, workers, delivery order, patch mode, "
-        "optional columns, dtype, degrees); distinct by that tuple + data seed; non-trivial when n > cs or workers > 1 "
-        "(more than one message reaches the writer)")
+RULE = ("cases = (source format, n around multiples of chunk size cs, cs, workers, delivery order, patch mode "
+        "[centres as coordinates / as a catalog, index column, both, patch_num, outranked patch_num], how the worker "
+        "count is given, progress, overwrite history, optional columns, dtype, degrees); distinct by that tuple + data "
+        "seed; non-trivial when n > cs or workers > 1 (more than one message reaches the writer); a matrix case = one "
+        "input under several executions, non-trivial when the executions use different worker counts")
 
 HEADER = "From Verif Require Import Prelude Chunks Writer.\nOpen Scope nat_scope.\n"
 
@@ -78,12 +98,64 @@ def exact_nearest(u, cents3):
     return order[0]
 
 
-def one_case(ctx, spec, idx):
-    rng = np.random.default_rng(spec["dseed"])
+class quiet_stderr:
+    """fd-level redirection of stderr into a scratch file while a call with progress=True runs (the progress
+    indicator writes to the stderr object it saw at import time); .text holds what was written."""
+
+    def __init__(self, path):
+        self.path = path
+        self.text = ""
+
+    def __enter__(self):
+        sys.stderr.flush()
+        self.saved = os.dup(2)
+        fd = os.open(self.path, os.O_WRONLY | os.O_CREAT | os.O_TRUNC)
+        os.dup2(fd, 2)
+        os.close(fd)
+        return self
+
+    def __exit__(self, *a):
+        try:
+            sys.stderr.flush()
+        finally:
+            os.dup2(self.saved, 2)
+            os.close(self.saved)
+        try:
+            with open(self.path, errors="replace") as f:
+                self.text = f.read()
+            os.unlink(self.path)
+        except OSError:
+            pass
+        return False
+
+
+HAS_CENTRES = {"centers": True, "both": True, "name": False, "create": False}
+HAS_COLUMN = {"centers": False, "both": True, "name": True, "create": False}
+
+
+def normalise(spec):
+    """defaults for the option fields (replays written before they existed stay runnable)"""
+    spec.setdefault("cent_as", "coords")
+    spec.setdefault("extra_num", False)
+    spec.setdefault("pidpat", "shift")
+    spec.setdefault("piddtype", "i8")
+    return spec
+
+
+def normalise_exec(ex):
+    ex.setdefault("wvia", "arg")
+    ex.setdefault("progress", False)
+    ex.setdefault("history", False)
+    ex.setdefault("pool", "identity")
+    return ex
+
+
+def build_input(ctx, spec, idx):
+    """everything that is determined by the input and the patch options (not by how the call is executed)"""
     import random as _r
+    normalise(spec)
     prng = _r.Random(spec["dseed"])
-    n, cs, workers = spec["n"], spec["cs"], spec["workers"]
-    ncent = spec["ncent"]
+    n, ncent, mode = spec["n"], spec["ncent"], spec["mode"]
     ra, dec, near, cent = gen_points(prng, n, ncent)
     dtype = spec["dtype"]
     cols = {"ra": np.asarray(ra, dtype="f8"), "dec": np.asarray(dec, dtype="f8")}
@@ -101,55 +173,148 @@ def one_case(ctx, spec, idx):
     if spec["redshifts"]:
         cols["z"] = np.asarray([prng.randrange(1, 300) / 128.0 for _ in range(n)], dtype="f4" if dtype == "f4" else "f8")
         kwargs["redshift_name"] = "z"
-    if spec["mode"] == "name":
+    pidcol = None
+    if mode == "name":
         pidcol = [k * spec["idstride"] for k in near]
-        cols["pid"] = np.asarray(pidcol, dtype="i8")
+    elif mode == "both":
+        # an index column next to the centres: documented as ignored, so any valid column must do
+        orng = _r.Random(spec["dseed"] + 7)
+        pat = spec["pidpat"]
+        if pat == "shift":          # every row names another patch than its nearest centre (when ncent > 1)
+            pidcol = [(k + 1) % ncent for k in near]
+        elif pat == "random":
+            pidcol = [orng.randrange(ncent) for _ in near]
+        elif pat == "const":
+            pidcol = [0 for _ in near]
+        elif pat == "rownum":       # e.g. a running number left over from an earlier step
+            pidcol = [i % (ncent + 1) for i in range(n)]
+        elif pat == "beyond":       # ids for which there is no centre at all
+            pidcol = [ncent + k * spec["idstride"] + 2 for k in near]
+        elif pat == "same":
+            pidcol = list(near)
+        else:
+            raise ValueError(pat)
+    if pidcol is not None:
+        cols["pid"] = np.asarray(pidcol, dtype=spec["piddtype"])
         kwargs["patch_name"] = "pid"
-    else:
+    cents3 = None
+    if HAS_CENTRES[mode]:
         cc = impl.AngularCoordinates(np.deg2rad(np.asarray(cent, dtype="f8")))
-        kwargs["patch_centers"] = cc
-    cache = impl.fresh_dir(ctx, "cat_%d" % idx)
-    fmt = spec["fmt"]
-    sched_used = None
+        if spec["cent_as"] == "catalog":
+            # the centres are those of another catalog: one with a single record at each centre position
+            cdir = impl.fresh_dir(ctx, "cen_%d" % idx)
+            impl.set_threads(16)
+            ccols = {"ra": np.asarray([c[0] for c in cent], dtype="f8"), "dec": np.asarray([c[1] for c in cent], dtype="f8"),
+                     "pid": np.arange(ncent, dtype="i8")}
+            ccat = impl.Catalog.from_dataframe(cdir, impl.make_df(ccols), ra_name="ra", dec_name="dec", patch_name="pid",
+                                               degrees=True, max_workers=1)
+            kwargs["patch_centers"] = ccat
+            cents3 = ccat.get_centers().to_3d()
+        else:
+            kwargs["patch_centers"] = cc
+            cents3 = cc.to_3d()
+    if mode == "create":
+        kwargs["patch_num"] = ncent
+    elif spec["extra_num"]:
+        kwargs["patch_num"] = ncent + 1 + spec["dseed"] % 3     # outranked by the centres / the index column
+    # expected stored fields per input row
+    exp_ra = cols["ra"].astype("f8")
+    exp_dec = cols["dec"].astype("f8")
+    if spec["degrees"]:
+        exp_ra, exp_dec = np.deg2rad(exp_ra), np.deg2rad(exp_dec)
+    fields, names = [exp_ra, exp_dec], ["ra", "dec"]
+    if spec["weights"]:
+        fields.append(cols["w"].astype("f8")); names.append("weights")
+    if spec["redshifts"]:
+        fields.append(cols["z"].astype("f8")); names.append("redshifts")
+    # the patch the documented precedence selects for each row (None: near tie between two centres)
+    expect = None
+    if HAS_CENTRES[mode]:
+        u3 = impl.AngularCoordinates(np.column_stack([exp_ra, exp_dec])).to_3d()
+        expect = [exact_nearest(u3[i], cents3) for i in range(n)]
+    elif mode == "name":
+        expect = [int(v) for v in cols["pid"]]
+    d2r = []
+    if spec["degrees"]:
+        for i in range(min(n, 3)):
+            d2r.append((float(cols["ra"][i]), float(exp_ra[i])))
+    return dict(cols=cols, kwargs=kwargs, fields=fields, names=names, expect=expect, d2r=d2r,
+                pidcol=[int(v) for v in cols["pid"]] if pidcol is not None else None)
+
+
+def old_catalog(ctx, cache, ncent):
+    """history: an older, complete catalog in the same cache directory, with other records, other columns and
+    more patches than the new one will have"""
+    k = ncent + 2
+    cols = {"ra": np.asarray([200.0 + 3 * i for i in range(2 * k)], dtype="f8"),
+            "dec": np.asarray([40.0 + (i % 5) for i in range(2 * k)], dtype="f8"),
+            "w": np.asarray([9.5 + i for i in range(2 * k)], dtype="f8"),
+            "z": np.asarray([7.25 + i for i in range(2 * k)], dtype="f8"),
+            "pid": np.asarray([i % k for i in range(2 * k)], dtype="i8")}
     impl.set_threads(16)
+    impl.Catalog.from_dataframe(cache, impl.make_df(cols), ra_name="ra", dec_name="dec", weight_name="w", redshift_name="z",
+                                patch_name="pid", degrees=True, max_workers=1)
+
+
+def execute(ctx, spec, inp, ex, idx, tag=""):
+    """run the creation call once, the way `ex` says, and observe what was stored"""
+    normalise_exec(ex)
+    n, cs, workers = spec["n"], spec["cs"], ex["workers"]
+    fmt = spec["fmt"]
+    cols, kwargs = inp["cols"], dict(inp["kwargs"])
+    cache = impl.fresh_dir(ctx, "cat_%d%s" % (idx, tag))
+    if ex["history"]:
+        old_catalog(ctx, cache, spec["ncent"])
+        kwargs["overwrite"] = True
+    if ex["progress"]:
+        kwargs["progress"] = True
+    eff = 1 if workers == 0 else workers
+    # the effective worker count is min(max_workers or YAW_NUM_THREADS, YAW_NUM_THREADS, cores)
+    if ex["wvia"] == "arg":
+        impl.set_threads(16); mw = eff
+    elif ex["wvia"] == "env":
+        impl.set_threads(eff); mw = None
+    elif ex["wvia"] == "cap":
+        impl.set_threads(eff); mw = eff + 1 + spec["dseed"] % 3
+    else:
+        raise ValueError(ex["wvia"])
 
     def create():
-        mw = 1 if workers == 0 else workers
         if fmt == "df":
             return impl.Catalog.from_dataframe(cache, impl.make_df(cols), chunksize=cs, max_workers=mw, **kwargs)
         ext = {"fits": ".fits", "hdf5": ".hdf5", "parquet": ".pqt"}[fmt]
-        path = os.path.join(ctx.workdir, "src_%d%s" % (idx, ext))
+        path = os.path.join(ctx.workdir, "src_%d%s%s" % (idx, tag, ext))
         write_source(fmt, path, cols, spec.get("rgsize"))
         try:
             return impl.Catalog.from_file(cache, path, chunksize=cs, max_workers=mw, **kwargs)
         finally:
             os.unlink(path)
 
-    if workers == 0 or spec["pool"] == "real":
-        cat = create()
-        nmsg_workers = workers
-        sched = None
-    else:
-        sch = simpool.Schedule(spec["pool"], seed=spec["dseed"])
-        with simpool.patched(sch) as mp:
-            cat = create()
-        sched = list(mp.delivery)
+    try:
+        if ex["progress"]:
+            q = quiet_stderr(os.path.join(ctx.workdir, "stderr_%d%s.txt" % (idx, tag)))
+            with q:
+                if workers == 0 or ex["pool"] == "real":
+                    cat = create(); sched = None
+                else:
+                    with simpool.patched(simpool.Schedule(ex["pool"], seed=ex.get("seed", spec["dseed"]))) as mp:
+                        cat = create()
+                    sched = list(mp.delivery)
+            ctx.bump("progress_output_seen" if "processed" in q.text else "progress_output_not_seen")
+        elif workers == 0 or ex["pool"] == "real":
+            cat = create(); sched = None
+        else:
+            with simpool.patched(simpool.Schedule(ex["pool"], seed=ex.get("seed", spec["dseed"]))) as mp:
+                cat = create()
+            sched = list(mp.delivery)
+    finally:
+        impl.set_threads(16)
     # --- observe ---
     stored = impl.patch_records(cat)
     reopened = impl.patch_records(impl.Catalog(cache, max_workers=1))
     reopen_same = (sorted(stored) == sorted(reopened) and
                    all(stored[p].tobytes() == reopened[p].tobytes() and stored[p].dtype == reopened[p].dtype for p in stored))
-    # expected stored fields per input row
-    exp_ra = cols["ra"].astype("f8")
-    exp_dec = cols["dec"].astype("f8")
-    if spec["degrees"]:
-        exp_ra, exp_dec = np.deg2rad(exp_ra), np.deg2rad(exp_dec)
-    fields = [exp_ra, exp_dec]
-    names = ["ra", "dec"]
-    if spec["weights"]:
-        fields.append(cols["w"].astype("f8")); names.append("weights")
-    if spec["redshifts"]:
-        fields.append(cols["z"].astype("f8")); names.append("redshifts")
+    fields, names = inp["fields"], inp["names"]
     index = {}
     for i in range(n):
         index.setdefault(impl.row_key(*[f[i] for f in fields]), []).append(i)
@@ -172,49 +337,152 @@ def one_case(ctx, spec, idx):
     for p, ids in impl_patches:
         for i in ids:
             assign[i] = p
-    replay = dict(spec=spec, sched=sched)
-    if foreign or lost or dtype_bad:
+    import shutil
+    shutil.rmtree(cache, ignore_errors=True)
+    return dict(impl_patches=impl_patches, assign=assign, sched=sched, lost=lost, foreign=foreign, dtype_bad=dtype_bad,
+                reopen_same=reopen_same)
+
+
+def judge(ctx, spec, inp, ex, obs, replay, idx):
+    """the statements of C02 that can be read off one execution; returns the assignment with gaps filled"""
+    n, mode = spec["n"], spec["mode"]
+    assign = obs["assign"]
+    if obs["foreign"] or obs["lost"] or obs["dtype_bad"]:
         ctx.fail("c02-record-set", "stored records differ from the input (lost rows %s, foreign/changed records %d, dtype_bad=%s)"
-                 % (lost[:5], len(foreign), dtype_bad), dict(replay, lost=lost, foreign=foreign[:5]), case=idx)
-        assign = [a if a is not None else 0 for a in assign]
-    if not reopen_same:
+                 % (obs["lost"][:5], len(obs["foreign"]), obs["dtype_bad"]),
+                 dict(replay, lost=obs["lost"], foreign=obs["foreign"][:5]), case=idx)
+    if not obs["reopen_same"]:
         ctx.fail("c02-reopen", "catalog reopened from its cache directory holds different records", replay, case=idx)
-    # nearest-centre / named patch check
-    if spec["mode"] == "name":
-        wrong = [i for i in range(n) if assign[i] is not None and assign[i] != int(cols["pid"][i])]
+    expect = inp["expect"]
+    if mode == "name":
+        wrong = [i for i in range(n) if assign[i] is not None and assign[i] != expect[i]]
         if wrong:
             ctx.fail("c02-named-patch", "record stored in another patch than the one named (rows %s)" % wrong[:5], replay, case=idx)
-    else:
-        cents3 = kwargs["patch_centers"].to_3d()
-        u3 = impl.AngularCoordinates(np.column_stack([exp_ra, exp_dec])).to_3d()
+    elif HAS_CENTRES[mode]:
         wrong = []
         for i in range(n):
-            e = exact_nearest(u3[i], cents3)
-            if e is None:
+            if expect[i] is None:
                 ctx.bump("near_tie_skipped")
-            elif assign[i] is not None and e != assign[i]:
-                wrong.append((i, assign[i], e))
-        if wrong:
+            elif assign[i] is not None and expect[i] != assign[i]:
+                wrong.append((i, assign[i], expect[i]))
+        if wrong and mode == "both":
+            bycol = sum(1 for (i, a, e) in wrong if a == inp["pidcol"][i])
+            ctx.fail("c02-nearest-centre-with-index-column",
+                     "patch_centers and patch_name both given (documented: patch_name is ignored): %d record(s) not stored with their "
+                     "nearest centre, %d of them in the patch the index column names: (row, stored in, nearest) %s"
+                     % (len(wrong), bycol, wrong[:5]), replay, case=idx)
+        elif wrong:
             ctx.fail("c02-nearest-centre", "record not stored with its nearest centre: %s" % wrong[:5], replay, case=idx)
-    # deg->rad exact to rounding, checked on the stored values against the raw input (in Coq, Q)
-    d2r = []
-    if spec["degrees"]:
-        for i in range(min(n, 3)):
-            d2r.append((float(cols["ra"][i]), float(exp_ra[i])))
+    return [a if a is not None else 0 for a in assign]
+
+
+def is_refusal(spec, e):
+    """inputs the property does not promise to accept: fewer records than centres (some centre stays empty, C09/C12),
+    or generated centres (patch_num) of which one attracts no record / fewer records than patches"""
+    if not isinstance(e, ValueError):
+        return False
+    msg = str(e)
+    if HAS_CENTRES[spec["mode"]] and spec["n"] < spec["ncent"]:
+        return "contains no data" in msg or "patch centers and patch IDs with data do not match" in msg
+    if spec["mode"] == "create":
+        return ("contains no data" in msg or "patch centers and patch IDs with data do not match" in msg
+                or (spec["n"] < spec["ncent"]))
+    return False
+
+
+def one_case(ctx, spec, idx):
+    inp = build_input(ctx, spec, idx)
+    ex = normalise_exec(dict(workers=spec["workers"], pool=spec["pool"], wvia=spec.get("wvia", "arg"),
+                             progress=spec.get("progress", False), history=spec.get("history", False)))
+    n, cs, workers = spec["n"], spec["cs"], spec["workers"]
+    obs = execute(ctx, spec, inp, ex, idx)
+    sched = obs["sched"]
+    impl_patches = obs["impl_patches"]
+    replay = dict(spec=spec, sched=sched)
+    assign = judge(ctx, spec, inp, ex, obs, replay, idx)
     term = "c02_case %s %s %s %s %s %s %s" % (
         fq.nat(n), fq.nat(cs), fq.nat(workers),
-        fq.nlist([a if a is not None else 0 for a in assign]),
+        fq.nlist(assign),
         fq.nlist(sched if sched is not None else (range(-(-n // cs) * workers) if workers else [])),
         fq.z(-1),
         fq.lst([fq.pair(fq.nat(p), fq.nlist(ids)) for p, ids in impl_patches]))
     nontrivial = n > cs or workers > 1
-    ctx.count(key=tuple(sorted(spec.items())), nontrivial=nontrivial,
-              kind="%s/%s/w%d" % (fmt, spec["mode"], workers))
+    ctx.count(key=tuple(sorted((k, str(v)) for k, v in spec.items())), nontrivial=nontrivial,
+              kind="%s/%s/w%d" % (spec["fmt"], spec["mode"], workers))
     ctx.bump("n_rel_cs:" + ("lt" if n < cs else "eq" if n == cs else "mult" if n % cs == 0 else "rem%d" % min(n % cs, 2)))
+    bump_options(ctx, spec, ex)
     ctx.sample(dict(spec=spec, sched=sched, impl_patches=impl_patches), limit=3)
-    import shutil
-    shutil.rmtree(cache, ignore_errors=True)
-    return term, replay, d2r
+    return term, replay, inp["d2r"]
+
+
+def bump_options(ctx, spec, ex):
+    how = "seq" if ex["workers"] == 0 else ("realpool" if ex["pool"] == "real" else "simpool")
+    ctx.bump("mode_x_exec:%s%s/%s" % (spec["mode"], "(catalog)" if HAS_CENTRES[spec["mode"]] and spec["cent_as"] == "catalog" else "", how))
+    ctx.bump("workers_via:%s" % ex["wvia"])
+    if ex["progress"]:
+        ctx.bump("progress_on/%s" % how)
+    if ex["history"]:
+        ctx.bump("overwrite_older_catalog/%s" % how)
+    if spec["extra_num"] and spec["mode"] != "create":
+        ctx.bump("outranked_patch_num")
+    if spec["mode"] == "both":
+        ctx.bump("index_column_next_to_centres:%s" % spec["pidpat"])
+
+
+def matrix_case(ctx, mspec, idx):
+    """one input, several executions: sequential, simulated pool, real pool, ... (Model/Writer.v: c02_matrix_case)"""
+    spec, execs = mspec["spec"], mspec["execs"]
+    inp = build_input(ctx, spec, idx)
+    n, cs, mode = spec["n"], spec["cs"], spec["mode"]
+    runs, replay = [], dict(spec=spec, execs=execs, scheds=[])
+    for j, ex in enumerate(execs):
+        obs = execute(ctx, spec, inp, ex, idx, tag="_x%d" % j)
+        replay["scheds"].append(obs["sched"])
+        judge(ctx, spec, inp, ex, obs, dict(spec=spec, exec=ex, sched=obs["sched"]), idx)
+        runs.append((ex, obs))
+        bump_options(ctx, spec, ex)
+    # independence of the execution, observed directly
+    ref_ex, ref = runs[0]
+    for ex, obs in runs[1:]:
+        if obs["impl_patches"] != ref["impl_patches"]:
+            diff = [i for i in range(n) if obs["assign"][i] != ref["assign"][i]]
+            ctx.fail("c02-execution-dependence",
+                     "the same creation call on the same input stored different per-patch record sets when run %s and when run %s "
+                     "(rows stored elsewhere: %s)" % (describe(ref_ex), describe(ex), diff[:8]),
+                     dict(replay, first=ref_ex, second=ex, patches_first=ref["impl_patches"], patches_second=obs["impl_patches"]),
+                     case=idx)
+            break
+    # the key the documented precedence selects; a near tie (never with the generated clusters) takes the first run's side
+    near, pidcol = [], []
+    if HAS_CENTRES[mode]:
+        near = [e if e is not None else (ref["assign"][i] or 0) for i, e in enumerate(inp["expect"])]
+        if any(e is None for e in inp["expect"]):
+            ctx.bump("matrix_near_tie_filled")
+    if HAS_COLUMN[mode]:
+        pidcol = inp["pidcol"]
+    term = "c02_matrix_case %s %s %s %s %s %s %s %s" % (
+        fq.nat(n), fq.nat(cs), fq.b(HAS_CENTRES[mode]), fq.b(HAS_COLUMN[mode]), fq.nlist(near), fq.nlist(pidcol), fq.z(-1),
+        fq.lst([fq.pair(fq.pair(fq.nat(ex["workers"]),
+                                fq.nlist(obs["sched"] if obs["sched"] is not None
+                                         else (range(-(-n // cs) * ex["workers"]) if ex["workers"] else []))),
+                        fq.lst([fq.pair(fq.nat(p), fq.nlist(ids)) for p, ids in obs["impl_patches"]]))
+                for ex, obs in runs]))
+    wk = sorted({ex["workers"] for ex in execs})
+    ctx.count(key=("matrix",) + tuple(sorted((k, str(v)) for k, v in spec.items())) + (repr(execs),),
+              nontrivial=len(wk) > 1, kind="matrix/%s/%s/x%d" % (spec["fmt"], mode, len(execs)))
+    ctx.sample(dict(matrix=mspec, scheds=replay["scheds"], impl_patches=ref["impl_patches"]), limit=2)
+    return term, replay, inp["d2r"]
+
+
+def describe(ex):
+    if ex["workers"] == 0:
+        how = "sequentially"
+    else:
+        how = "on %d workers (%s)" % (ex["workers"], "real pool" if ex["pool"] == "real" else "simulated pool, %s delivery" % ex["pool"])
+    return "%s [workers via %s, progress=%s, overwrite history=%s]" % (how, ex["wvia"], ex["progress"], ex["history"])
+
+
+PIDPATS = ["shift", "shift", "random", "rownum", "const", "beyond", "same"]
 
 
 def specs(ctx):
@@ -237,52 +505,113 @@ def specs(ctx):
     for (n, cs) in combos:
         for rep in range(ctx.n(1, 3)):
             workers = rng.choice([0, 2, 3, 4])
-            spec = dict(n=n, cs=cs, workers=workers, fmt=rng.choice(fmts), mode=rng.choice(["centers", "name"]),
+            spec = dict(n=n, cs=cs, workers=workers, fmt=rng.choice(fmts), mode=rng.choice(["centers", "name", "both", "both"]),
                         weights=rng.random() < 0.5, redshifts=rng.random() < 0.5,
                         dtype=rng.choice(["f8", "f8", "f4", "i8"]), degrees=rng.random() < 0.8,
                         pool=rng.choice(["random", "reverse", "identity"]), ncent=rng.choice([1, 2, 3, 4]),
-                        idstride=rng.choice([1, 1, 3, 1000]), dseed=rng.randrange(10 ** 6))
+                        idstride=rng.choice([1, 1, 3, 1000]), dseed=rng.randrange(10 ** 6),
+                        cent_as=rng.choice(["coords", "coords", "catalog"]), extra_num=rng.random() < 0.25,
+                        pidpat=rng.choice(PIDPATS), piddtype=rng.choice(["i8", "i8", "i4"]),
+                        wvia=rng.choice(["arg", "arg", "env", "cap"]), progress=rng.random() < 0.3,
+                        history=rng.random() < 0.15)
+            if rng.random() < 0.12 and n >= 2:
+                # generated centres (patch_num): at least two records per patch to be
+                spec["mode"] = "create"
+                spec["ncent"] = rng.choice([k for k in (1, 2, 3) if 2 * k <= n])
             if spec["fmt"] == "parquet":
                 spec["rgsize"] = rng.choice([1, max(1, cs - 1), cs, cs + 1, max(1, n)])
-            if spec["fmt"] == "fits" and spec["dtype"] == "f4":
-                pass
             out.append(spec)
     # a few runs on the real multiprocessing pool
-    for k in range(ctx.n(3, 12)):
+    for k in range(ctx.n(5, 12)):
         cs = rng.choice([2, 3, 5])
         out.append(dict(n=rng.choice([2 * cs + 1, 3 * cs, 7]), cs=cs, workers=rng.choice([2, 3, 4]), fmt="df",
-                        mode=rng.choice(["centers", "name"]), weights=True, redshifts=True, dtype="f8", degrees=True,
-                        pool="real", ncent=3, idstride=1, dseed=rng.randrange(10 ** 6)))
+                        mode=rng.choice(["centers", "name", "both"]), weights=True, redshifts=True, dtype="f8", degrees=True,
+                        pool="real", ncent=3, idstride=1, dseed=rng.randrange(10 ** 6),
+                        cent_as="coords", extra_num=False, pidpat=rng.choice(["shift", "random", "rownum"]), piddtype="i8",
+                        wvia=rng.choice(["arg", "env", "cap"]), progress=rng.random() < 0.5, history=False))
+    return out
+
+
+def matrix_specs(ctx):
+    """one input x several executions.  Patch modes and source formats are cycled (not drawn) so that every seed of
+    the quick tier meets every patch mode on every kind of execution, from a data frame and from a file."""
+    rng = ctx.rng
+    out = []
+    modes = ["both", "centers", "name", "both", "both", "name", "centers", "both"]
+    fmts = ["df", "fits", "hdf5", "parquet", "df"]
+    count = ctx.n(20, 80)
+    for k in range(count):
+        mode, fmt = modes[k % len(modes)], fmts[k % len(fmts)]
+        cs = rng.choice([1, 2, 3, 5, 7])
+        ncent = rng.choice([2, 3, 4]) if mode != "name" or rng.random() < 0.8 else 1
+        n = max(ncent, rng.choice([cs, cs + 1, 2 * cs - 1, 2 * cs, 2 * cs + 1, 3 * cs, 3 * cs + 1]))
+        spec = dict(n=n, cs=cs, fmt=fmt, mode=mode, weights=rng.random() < 0.5, redshifts=rng.random() < 0.5,
+                    dtype=rng.choice(["f8", "f8", "f4", "i8"]), degrees=rng.random() < 0.8, ncent=ncent,
+                    idstride=rng.choice([1, 1, 3, 1000]), dseed=rng.randrange(10 ** 6),
+                    cent_as="catalog" if (mode != "name" and k % 3 == 2) else "coords", extra_num=rng.random() < 0.25,
+                    # in the matrix the column always contradicts the centres somewhere (or names patches without a centre)
+                    pidpat=["shift", "random", "rownum", "beyond", "const"][k % 5] if k % 8 else "shift",
+                    piddtype=rng.choice(["i8", "i8", "i4"]))
+        if fmt == "parquet":
+            spec["rgsize"] = rng.choice([1, max(1, cs - 1), cs, cs + 1, max(1, n)])
+        pools = ["random", "reverse", "identity"]
+        execs = [dict(workers=0, pool="identity", wvia="arg", progress=False, history=False),
+                 dict(workers=0, pool="identity", wvia=rng.choice(["env", "cap"]), progress=True, history=rng.random() < 0.3),
+                 dict(workers=2, pool=rng.choice(pools), wvia=rng.choice(["arg", "env", "cap"]), progress=rng.random() < 0.5,
+                      history=rng.random() < 0.2, seed=rng.randrange(10 ** 6)),
+                 dict(workers=rng.choice([3, 4]), pool=rng.choice(pools), wvia=rng.choice(["arg", "env", "cap"]),
+                      progress=rng.random() < 0.5, history=False, seed=rng.randrange(10 ** 6))]
+        if k % 2 == 0 or not ctx.quick():
+            execs.append(dict(workers=rng.choice([2, 3, 4]), pool="real", wvia=rng.choice(["arg", "env", "cap"]),
+                              progress=rng.random() < 0.5, history=rng.random() < 0.2))
+        out.append(dict(spec=spec, execs=execs))
     return out
 
 
 def run(ctx):
     terms, replays, d2r_all = [], [], []
-    for idx, spec in enumerate(specs(ctx)):
+    jobs = [("single", s) for s in specs(ctx)] + [("matrix", m) for m in matrix_specs(ctx)]
+    for idx, (what, spec) in enumerate(jobs):
         try:
-            term, replay, d2r = one_case(ctx, spec, idx)
+            if what == "single":
+                term, replay, d2r = one_case(ctx, spec, idx)
+            else:
+                term, replay, d2r = matrix_case(ctx, spec, idx)
         except Exception as e:  # creation of a valid input must not raise
-            if (isinstance(e, ValueError) and spec["mode"] == "centers" and spec["n"] < spec["ncent"] and ("contains no data" in str(e) or "patch centers and patch IDs with data do not match" in str(e))):
+            base = spec if what == "single" else spec["spec"]
+            if is_refusal(base, e):
                 # fewer records than given centres: some centre is empty and creation must refuse (C09/C12)
-                ctx.bump("skipped_fewer_records_than_centres")
+                ctx.bump("skipped_fewer_records_than_centres" if base["mode"] != "create" else "skipped_generated_centre_without_records")
                 continue
             import traceback
-            ctx.count(key=tuple(sorted(spec.items())), kind="raised")
+            ctx.count(key=(what,) + tuple(sorted((k, str(v)) for k, v in base.items())), kind="raised")
             ctx.fail("c02-raises:%s" % type(e).__name__,
                      "creating a catalog from a valid input raised %s: %s" % (type(e).__name__, e),
                      dict(spec=spec, traceback=traceback.format_exc()[-1500:]), case=idx)
             continue
         terms.append(term)
-        replays.append((idx, replay))
+        replays.append((idx, what, replay))
         d2r_all.extend(d2r)
     codes = ctx.shards("Cases_C02", HEADER, terms, shard=60)
-    for (idx, replay), c in zip(replays, codes):
+    for (idx, what, replay), c in zip(replays, codes):
         if c is None or c == 0:
             continue
-        if c & 2 or c & 4:
-            ctx.fail("c02-partition", "per-patch record sets differ from the assignment (code %d)" % c, replay, case=idx)
-        if c & 1 or c & 8:
-            ctx.disagree("Cases_C02", idx, dict(code=c, replay=replay))
+        if what == "single":
+            if c & 2 or c & 4:
+                ctx.fail("c02-partition", "per-patch record sets differ from the assignment (code %d)" % c, replay, case=idx)
+            if c & 1 or c & 8:
+                ctx.disagree("Cases_C02", idx, dict(code=c, replay=replay))
+        else:
+            if c & 2:
+                ctx.fail("c02-partition-by-documented-key",
+                         "in some execution the per-patch record sets are not the split of the input by the key the documented "
+                         "precedence selects (patch_centers > patch_name) (code %d)" % c, replay, case=idx)
+            if c & 4:
+                ctx.fail("c02-execution-dependence",
+                         "the same creation call on the same input stored different per-patch record sets in two executions "
+                         "(code %d)" % c, replay, case=idx)
+            if c & 1 or c & 8:
+                ctx.disagree("Cases_C02", idx, dict(code=c, replay=replay))
     # degrees -> radian, exact to rounding: the rational test c02_deg2rad_case (Model/Deg2Rad.v) against the proven
     # enclosure pi_lo < PI < pi_hi; Proofs/Deg2RadP.v:deg2rad_case_sound turns code 0 into
     # |stored - x*PI/180| <= (2^-51 + 1e-36) * |x|*PI/180 over the reals
